@@ -163,6 +163,9 @@ Step ==
        \* the writer was asleep at a deadlock and obtained its region after a mere spurious wake-up: it had been blocked
        \* although the channel itself grants the request (a lost wake-up)
        [] e = "LostWakeup" -> /\ Flag(<<"WriterAsleepThoughGrantable">>) /\ o' = o /\ stk' = stk
+       \* a reader that kept reading (map + consume everything) with the writer idle must be drained after a bounded
+       \* number of non-empty reads (the old lap's remainder, then the new lap: 2; the bound used here is generous)
+       [] e = "DrainProbe" -> /\ Flag(If(~Ev.drained \/ Ev.calls > 3, "DrainNotBounded")) /\ o' = o /\ stk' = stk
        [] e \in {"End", "Sched"} -> /\ NoFlag /\ o' = o /\ stk' = stk
        [] OTHER         -> /\ Flag(<<"UnknownEvent">>) /\ o' = o /\ stk' = stk
 
